@@ -75,6 +75,9 @@ static CaseResult system_case(Tape &t)
 	size_t plen = (size_t)t.range(1, 36);
 	int pclass = (int)t.below(2);
 	for (size_t i = 0; i < plen; i++) c.password += (char)(pclass == 0 ? t.range(0x21, 0x7e) : t.range(0x80, 0xfe));
+	// the password reaches the programs through -P or through the environment (IODINE_PASS / IODINED_PASS); passwords may contain '%'
+	if (t.chance(1, 3)) { static const char *PCT[] = {"%%", "%d", "%s", "%5c", "100%", "%x%x", "%%%%"}; std::string ins = PCT[t.below(7)]; size_t at = t.below((uint32_t)c.password.size() + 1); c.password.insert(at, ins); if (c.password.size() > 36) c.password.resize(36); }
+	c.pass_env_client = t.chance(1, 3); c.pass_env_server = t.chance(1, 3);
 	c.raw_mode = true;
 	c.qtype = (int)t.below(8);   // 0 = autodetect
 	c.srv_seed = t.u32() | 1; c.cli_seed = t.u32() | 1;
@@ -122,6 +125,17 @@ static CaseResult system_case(Tape &t)
 	};
 	s.start_server();
 	if (forced >= 0) s.srv->rand_forced.push_back(forced);
+	// one case in three: the server's first 1..3 raw login replies are lost on the way; the client repeats its raw login (it tries
+	// four times) and every repeat must be answered with hash(challenge-1) again
+	int lose_replies = t.chance(1, 3) ? 1 + (int)t.below(3) : 0, lost = 0;
+	if (lose_replies) {
+		int srv_idx = s.srv->idx;
+		sim::W.router = [&lost, lose_replies, srv_idx](const sim::Datagram &dg) {
+			const Bytes &d = dg.data;
+			if (dg.from_inst == srv_idx && lost < lose_replies && d.size() >= 20 && d[0] == 0x10 && d[1] == 0xd1 && d[2] == 0x9e && (d[3] & 0xf0) == 0x10) { lost++; return; }
+			sim::W.deliver_after(dg, sim::W.latency_us);
+		};
+	}
 	s.start_client(0);
 	bool up = s.wait_handshake(0, 120);
 	if (up) sim::W.run_for(3000000);
@@ -134,6 +148,9 @@ static CaseResult system_case(Tape &t)
 	if (r.ok && forced >= 0 && S.challenge != (uint32_t)forced) r.fail("C19:harness", "the forced challenge was not issued [" + r.render + "]");
 	r.nontrivial = S.login && S.rawc && S.raws;
 	r.cls("system");
+	if (lost) r.cls("raw-login-reply-lost-and-repeated");
+	if (c.pass_env_client || c.pass_env_server) r.cls("password-from-environment");
+	if (c.password.find('%') != std::string::npos) r.cls("password-with-percent");
 	if (forced >= 0) r.cls("system:boundary-challenge");
 	return r;
 }
@@ -148,6 +165,8 @@ static CaseResult client_case(Tape &t)
 	size_t plen = (size_t)t.range(1, 36);
 	int pclass = (int)t.below(2);
 	for (size_t i = 0; i < plen; i++) c.password += (char)(pclass == 0 ? t.range(0x21, 0x7e) : t.range(0x80, 0xfe));
+	if (t.chance(1, 3)) { static const char *PCT[] = {"%%", "%d", "%s", "%5c", "100%", "%x%x", "%%%%"}; std::string ins = PCT[t.below(7)]; size_t at = t.below((uint32_t)c.password.size() + 1); c.password.insert(at, ins); if (c.password.size() > 36) c.password.resize(36); }
+	c.pass_env_client = t.chance(1, 2);
 	c.raw_mode = true; c.qtype = 1 + (int)t.below(7); c.cli_seed = t.u32() | 1; c.frag = 200; c.nclients = 1;
 	scn::Session s(c);
 	cli::ScriptServer srv;
